@@ -92,7 +92,7 @@ COEF_ENTRIES = ["gto_gq", "gto_qg", "vk1_gq", "vk1_qg", "spline_gq", "spline_qg"
 
 @st.composite
 def st_coefs(draw):
-    T, n = draw(G.st_team_and_size(extra=(200, 1001)))
+    T, n = draw(G.st_team_and_size(extra=(200, 1001, 20011, 50021)))
     return {"entry": draw(st.sampled_from(COEF_ENTRIES)), "T": T, "n": n, "i": draw(st.integers(-1, 3)),
             "nalpha": draw(st.integers(2, 9)), "lambd": draw(st.sampled_from([1.6, 1.8, 2.2])), "reps": draw(REPS),
             "seed": draw(SEED)}
@@ -102,7 +102,7 @@ def st_coefs(draw):
           rule="cider_coefs_gto_gq/qg (all four feature ids through NLDFGaussianPlan.get_interpolation_coefficients), "
                "cider_coefs_vk1_gq/qg (version k, i=-1), cider_coefs_spline_gq/qg, cider_ind_etb/zexp + cider_ind_clip "
                "(NLDFSplinePlan.get_a2q_fast), smooth_cider_exponents (eval_feat_exp with use_smooth_expnt_cutoff); "
-               "ngrids in {0,1,2,T-1,T,T+1,2T+1,4T-1, primes, 200, 1001} x T in {1,2,3,5,8,16,32,64} x 2-5 repetitions; "
+               "ngrids in {0,1,2,T-1,T,T+1,2T+1,4T-1, primes, 200, 1001, 20011, 50021 (long loops so that threads really overlap)} x T in {1,2,3,5,8,16,32,64} x 2-5 repetitions; "
                "caller buffers poisoned with NaN; all element-wise -> bit-identical to the 1-thread result; "
                "non-trivial = T>=2 and (ngrids < T or ngrids % T != 0).  Interleavings are not controlled: races are "
                "found only probabilistically, partition bugs reliably",
@@ -303,7 +303,7 @@ def conv_collection(case, ctx):
 # 3. interpolators (conv_interpolation.c)
 
 INTERP_ENTRIES = ["spline_maps", "num_ai", "spline_bas", "spline_bas_deriv", "conv2spline", "spline2conv",
-                  "interp_fwd", "interp_bwd", "orb2grid", "grid2orb", "grad"]
+                  "interp_fwd", "interp_bwd", "orb2grid", "grid2orb", "grad", "real_orb2grid", "real_grid2orb", "real_grad"]
 
 
 @st.composite
@@ -316,7 +316,8 @@ def st_interpT(draw):
     return {"entry": draw(st.sampled_from(INTERP_ENTRIES)), "T": T, "layout": lay, "n0": draw(st.integers(0 if n1 else 1, 3)),
             "n1": n1, "nrad": draw(st.sampled_from([2, 3, 4, 5, 7, 9, 16, 17, 33])), "aparam": 0.03,
             "rmax": draw(G.pfloat(1.0, 30.0)), "itype": draw(st.sampled_from(["plain", "direct_onsite", "direct_spline"])),
-            "npts": draw(st.sampled_from(sizes)), "reps": draw(REPS), "seed": draw(SEED)}
+            "npts": draw(st.sampled_from(sizes)), "reps": draw(REPS), "seed": draw(SEED),
+            "real_layout": draw(G.st_real_layout(levels=(0,), lmaxs=(2, 3))), "real_nldf": draw(G.st_nldf())}
 
 
 @subcheck("C10", "interpolation", st_interpT, quick=1100, thorough=20000,
@@ -328,13 +329,37 @@ def st_interpT(draw):
                "reductions add_lp1_term_grad (critical section) / contract_grad_terms_parallel (hand-computed chunks per "
                "thread: class reduce); spline size 2-33 and, for the plain interpolator, a free number of target points "
                "from {1,2,T-1,T,T+1,primes..300}; Direct interpolators use the layout's own grid (6-170 points); 1-3 "
-               "atoms; T in {1..64} x 2-5 repetitions; interleavings not controlled",
+               "atoms; plus project_orb2grid / project_grid2orb / project_orb2grid_grad of real PyscfNLDFGenerator "
+               "interpolators (600-2300 points, long enough loops for threads to overlap); T in {1..64} x 2-5 repetitions; interleavings not controlled",
           tolerances={"exact": 0.0, "blas_rtol": BLAS_RTOL, "reduce_rtol": BLAS_RTOL})
 def interpolation(case, ctx):
     lay, e, T = case["layout"], case["entry"], case["T"]
+    rng = rng_from(case["seed"])
+    if e.startswith("real_"):
+        ns = dict(case["real_nldf"])
+        if e == "real_grad" and ns["interp"] == "train_gen":
+            ns["interp"] = "onsite_direct"
+        bootstrap.set_threads(1)
+        _, grids, gen = G.build_real_generator(case["real_layout"], ns)
+        it = gen.interpolator
+        npts = it.all_coords.shape[0]
+        pad = grids.grids_indexer.padding if hasattr(it, "grids_indexer") else 0
+        ctx.event("entry=" + e)
+        ctx.event("real:%s/%s" % (ns["kind"], ns["interp"]))
+        nontrivial_T(ctx, T, npts, [e, T, npts, ns["kind"], ns["interp"], it._n0, it._n1])
+        f_uq = G.fill(rng, (it.atco.nao, it.num_in))
+        f_g = G.fill(rng, (npts + pad, it.num_out))
+        if e == "real_orb2grid":
+            run_diff(ctx, "interp:" + e, lambda: {"f_gq": it.project_orb2grid(f_uq.copy())}, T, case["reps"], mode="blas")
+        elif e == "real_grid2orb":
+            run_diff(ctx, "interp:" + e, lambda: {"f_uq": it.project_grid2orb(f_g.copy())}, T, case["reps"], mode="blas")
+        else:
+            mag = float(np.abs(it.project_orb2grid(np.abs(f_uq))).max() * np.abs(f_g).max() * npts * it.num_out * 4 + 1e-300)
+            run_diff(ctx, "interp:" + e, lambda: {"excsum": it.project_orb2grid_grad(f_uq.copy(), f_g[:npts].copy())}, T,
+                     case["reps"], mode="blas", scale_of=lambda k, b: max(mag, float(np.abs(b).max())))
+        return
     L = G.layout_ns(lay)
     atco = G.build_atco(lay["atoms"])[0]
-    rng = rng_from(case["seed"])
     direct = case["itype"] != "plain"
     if e == "grad" and not direct:
         case = dict(case, itype="direct_onsite")
@@ -434,12 +459,12 @@ def interpolation(case, ctx):
 # ----------------------------------------------------------------------------------------------
 # 4. SDMX (fast_sdmx.c)
 
-SDMX_ENTRIES = ["ylm", "cao", "ao2bas", "ao2bas_bwd", "shl2alpha", "shl2alpha_bwd", "features_vxc"]
+SDMX_ENTRIES = ["ylm", "cao", "slow_cao", "ao2bas", "ao2bas_bwd", "shl2alpha", "shl2alpha_bwd", "features_vxc"]
 
 
 @st.composite
 def st_sdmxT(draw):
-    T, n = draw(G.st_team_and_size(extra=(55, 56, 57, 112, 127, 128, 129, 257), min_size=0, max_size=300))
+    T, n = draw(G.st_team_and_size(extra=(55, 56, 57, 112, 127, 128, 129, 257, 3001), min_size=0, max_size=3001))
     return {"entry": draw(st.sampled_from(SDMX_ENTRIES)), "T": T, "ngrids": n,
             "mol": draw(st.sampled_from(["H2", "HF", "H2O", "LiH"])), "basis": draw(st.sampled_from(["sto-3g", "6-31g", "def2-svp"])),
             "kind": draw(st.sampled_from(["sdmx", "sdmxg", "sdmx1", "sdmxg1", "full"])), "reps": draw(REPS), "seed": draw(SEED)}
@@ -447,10 +472,10 @@ def st_sdmxT(draw):
 
 @subcheck("C10", "sdmx", st_sdmxT, quick=900, thorough=16000,
           rule="SDMXylm_loop / SDMXylm_grad / SDMXylm_yzx2xyz (static over atom x 56-point blocks; EXXSphGenerator._get_ylm), "
-               "SDMXeval_rad_loop with all four contraction kernels (dynamic,4; get_cao), SDMXcontract_ao_to_bas{,_bwd}, "
+               "SDMXeval_rad_loop with all four contraction kernels (dynamic,4; get_cao), SDMXeval_loop / SDMXeval_sph_iter (sdmx_slow.eval_conv_gto_fast), SDMXcontract_ao_to_bas{,_bwd}, "
                "SDMXcontract_ao_to_bas_l1{,_bwd} (one hand-computed chunk of ceil(n/T) points per thread), "
                "contract_shl_to_alpha_l1{,_bwd} (128-point blocks), and get_features + get_vxc_ end to end in process; "
-               "ngrids in {0,1,2,T-1,T,T+1,primes, 55-57, 112, 127-129, 257} (0 only where the wrapper accepts it), "
+               "ngrids in {0,1,2,T-1,T,T+1,primes, 55-57, 112, 127-129, 257, 3001} (0 only where the wrapper accepts it), "
                "H2/HF/H2O/LiH x sto-3g/6-31g/def2-svp, five settings classes; all element-wise with fixed summation order "
                "-> bit-identical; T in {1..64} x 2-5 repetitions; interleavings not controlled",
           tolerances={"exact": 0.0, "features_vxc_rtol": BLAS_RTOL})
@@ -465,7 +490,7 @@ def sdmx(case, ctx):
     ncomp, nalpha = 1 + 6 * d, gen.plan.nalpha
     if e in ("shl2alpha", "shl2alpha_bwd") and d == 0:
         e = "ao2bas"
-    if ng == 0 and e in ("cao", "features_vxc", "shl2alpha", "shl2alpha_bwd"):
+    if ng == 0 and e in ("cao", "slow_cao", "features_vxc", "shl2alpha", "shl2alpha_bwd"):
         ng = 1  # pyscf's eval_ao / make_screen_index are not defined for an empty grid
         coords = np.asfortranarray(mol.atom_coords(unit="Bohr")[:1] + 0.37)
     ctx.event("entry=%s deriv=%d" % (e, d))
@@ -481,6 +506,14 @@ def sdmx(case, ctx):
         def call():
             gen._cao_buf = nan(nrf * ng * nalpha * (2 if d else 1))
             return {"cao": np.array(gen.get_cao(mol, coords))}
+    elif e == "slow_cao":
+        from ciderpress.pyscf import sdmx_slow
+
+        cpa = 4 if d else 1
+
+        def call():
+            out = nan(nalpha * cpa * nao * ng)
+            return {"cao": np.array(sdmx_slow.eval_conv_gto_fast("GTOval_sph_deriv%d" % d, gen.plan, mol, coords, out=out))}
     elif e == "ao2bas":
         def call():
             return {"b0": gen._contract_ao_to_bas(mol, c0.copy(order="F"), shls, ao_loc, coords)}
@@ -523,7 +556,7 @@ def sdmx(case, ctx):
 
 @st.composite
 def st_misc(draw):
-    T, n = draw(G.st_team_and_size(extra=(200,), max_size=300))
+    T, n = draw(G.st_team_and_size(extra=(200, 2003, 20011)))
     return {"entry": draw(st.sampled_from(["se", "se_antisym", "se_spin", "numint_i", "numint_j", "numint_k", "fft"])),
             "T": T, "n": n, "nfeat": draw(st.integers(2, 6)), "nctrl": draw(st.integers(1, 9)),
             "dims": draw(st.lists(st.integers(1, 6), min_size=1, max_size=3)), "r2c": draw(st.booleans()),
@@ -536,7 +569,7 @@ def st_misc(draw):
                "SpinRBFEvaluator called with a known prefill they must add to), debug_numint_vi/vj/vk (static over target "
                "points; debug_numint.get_nonlocal_features), write_fft_input / read_fft_output (parallel copies with the "
                "padded r2c layout; FFTWrapper.call, 1-3 dimensions, batch count = the drawn size); sizes in "
-               "{0,1,2,T-1,T,T+1,primes,200}; all per-output independent -> bit-identical; T in {1..64} x 2-5 "
+               "{0,1,2,T-1,T,T+1,primes,200,2003,20011 (numint and fft capped at 2003 / 70 batches)}; all per-output independent -> bit-identical; T in {1..64} x 2-5 "
                "repetitions; interleavings not controlled",
           tolerances={"exact": 0.0})
 def kernels_misc(case, ctx):
@@ -570,6 +603,7 @@ def kernels_misc(case, ctx):
     elif e.startswith("numint"):
         from ciderpress.dft import debug_numint as dn
 
+        n = min(n, 2003)
         nontrivial_T(ctx, T, n, [e, T, n])
         m = 11 + case["seed"] % 23
 
@@ -712,7 +746,8 @@ def st_e2e(draw):
     return {"mol": draw(st.sampled_from(_rot(["HF", "H2O", "H2"], k))), "basis": draw(st.sampled_from(_rot(["sto-3g", "6-31g"], k))),
             "level": draw(st.sampled_from(_rot([0, 1], k // 2))), "model": draw(st.sampled_from(_rot(E2E_MODELS, k))),
             "plan": draw(st.sampled_from(_rot(["gaussian", "spline"], k // 2))),
-            "spin": draw(st.sampled_from(_rot(["r", "u", "r"], k))), "seed": draw(st.integers(0, 10**6))}
+            "spin": draw(st.sampled_from(_rot(["r", "u", "r"], k))), "seed": draw(st.integers(0, 10**6)),
+            "omp_env": draw(st.sampled_from(_rot(["passive", "dynamic", "spin1000", "passive"], k)))}
 
 
 E2E_RTOL = 1e-10
@@ -722,7 +757,7 @@ E2E_RTOL = 1e-10
           rule="CiderNumInt.nr_rks / nr_uks of a synthesised model (semilocal, NLDF j/i/ij/k with Gaussian or spline plan, "
                "SDMX with and without vector terms) on H2/HF/H2O, sto-3g/6-31g, grid level 0-1, perturbed initial-guess "
                "density matrix, each evaluated in three fresh processes with OMP_NUM_THREADS = 1, 4, 16 (PySCF's own "
-               "OpenMP runtime follows the same variable); nelec, exc, vmat of the 4- and 16-thread runs must agree with "
+               "OpenMP runtime follows the same variable), under OMP_WAIT_POLICY=passive, OMP_DYNAMIC=true or a short active spin; nelec, exc, vmat of the 4- and 16-thread runs must agree with "
                "the 1-thread run to 1e-10 relative (BLAS / grid-block reductions reassociate); non-trivial = model has a "
                "nonlocal family.  Interleavings are not controlled: races only probabilistically",
           tolerances={"rtol": E2E_RTOL})
@@ -737,6 +772,10 @@ def end_to_end(case, ctx):
             env = dict(os.environ)
             env.update(OMP_NUM_THREADS=str(T), OPENBLAS_NUM_THREADS="1", PYTHONPATH=bootstrap.VERIF + os.pathsep + env.get("PYTHONPATH", ""),
                        VERIF_REPO=bootstrap.REPO)
+            if case.get("omp_env") == "dynamic":
+                env["OMP_DYNAMIC"] = "true"
+            elif case.get("omp_env") == "spin1000":
+                env.update(OMP_WAIT_POLICY="active", GOMP_SPINCOUNT="1000")
             out = os.path.join(tmp, "out%d.npz" % T)
             p = subprocess.Popen([sys.executable, "-c", "from props import c10; c10.e2e_worker()", spec, out],
                                  env=env, cwd=bootstrap.VERIF, stdout=subprocess.DEVNULL, stderr=subprocess.PIPE, text=True)
